@@ -135,6 +135,19 @@ def rule_exec_order(chk: Check, model, rid: str, cv: CompiledView):
         live = cv.ev.live
         val = cv.ev.invoke(dict(srt[0].kwargs)["key"], [S("x")], cv.outer.frame)
         ok = val == T.mk_attr(T.mk_index(S("timings.slots"), S("x")), "generation")
+    if len(srt) == 1 and not srt[0].kwargs and len(srt[0].args) == 1 and srt[0].args[0][0] == "comp":
+        # decorate - sort - undecorate: the (generation, position) pairs of the list sorted, the slots taken back by position
+        d = srt[0].args[0]
+        ok = d[1] == "list" and d[2][0] == "tuple" and len(d[2][1]) == 2 and len(d[3]) == 1 and not d[4] and T.call_name(d[3][0][1]) == "enumerate" and len(d[3][0][1][2]) == 1
+        if ok:
+            value = d[3][0][1][2][0]
+            els = [x for x in T.walk(d[2]) if x[0] == "elem" and x[1] == d[3][0][1]]
+            ok = bool(els) and d[2][1] == (T.mk_attr(T.mk_index(S("timings.slots"), T.mk_index(els[0], T.ONE)), "generation"), T.mk_index(els[0], T.ZERO))
+            st_ = [e for e in cv.outer.events if e.kind == "store_sub" and e.func == f_out.qualname and e.term[0] == "comp" and any(x == srt[0].term for x in T.walk(e.term))]
+            ok = ok and len(st_) == 1
+            if ok:
+                c_ = st_[0].term
+                ok = c_[1] == "list" and len(c_[3]) == 1 and not c_[4] and c_[3][0][1] == srt[0].term and c_[2] == T.mk_index(value, T.mk_index(("elem", srt[0].term, c_[2][2][1][2] if c_[2][0] == "index" and c_[2][2][0] == "index" and c_[2][2][1][0] == "elem" else -1), T.ONE))
     chk.add(rid, "slots of a kind ordered by generation", bool(ok), "kinds_to_slots[kind] must be sorted by timings.slots[slot].generation (slot names sort lexicographically: s_10 < s_2)", chk.loc(f_out))
     # supervisor input update after all generations
     calls = [e for e in sub.events if e.func == fi.qualname and e.kind == "call"]
